@@ -176,6 +176,12 @@ def run(ctx):
         r0 = mtlib.run_driver(exe_asan, "enc", g["path"], os.path.join(wd, "cnt.out"), os.path.join(wd, "cnt.tr"), failalloc=10 ** 9, **p0)
         mm = re.search(r"allocs=(\d+)", r0["stdout"])
         if not mm:
+            if r0["hang"] or r0["rc"] not in (0, 66):
+                # the counting run (no allocation fails in it) is an ordinary run: a hang / crash in it is a verdict
+                ctx.violation(("hang:%s:T%d:to%d" % (g["inp"], g["nw"], g["timeout"])) if r0["hang"] else "crash:%s" % g["inp"],
+                              "the allocation-counting run of the threaded encoder did not finish (rc %s)\n%s" % (r0["rc"], r0["stderr"][-1500:]),
+                              dict(kind="run", mode="enc", params=p0, input=g["inp"]))
+                continue
             raise MachineryError("could not count the allocations of a threaded encoder run: %r" % r0["stdout"][-200:])
         for kk in range(1, int(mm.group(1)) + 1):
             jobs.append((g, dict(p0, failalloc=kk, watchdog=12, actions="", **({"asan": 1} if kk % 2 else {})), []))
